@@ -1,0 +1,92 @@
+//go:build verif
+
+package ocache
+
+import (
+	"sync"
+	"sync/atomic"
+)
+
+// Verification hooks, compiled only with `-tags verif`.
+//
+// The cache calls verifGate / verifGateE / verifGateS at the boundaries of its
+// lock sections and blocking points. Points whose name starts with "gate:" are
+// reached while NO cache lock is held (a hook may block there: scheduler gate);
+// all other points are reached while the lock protecting the reported change is
+// held (c.mu and/or e.mx) or directly after a wake-up, and must not block: they
+// are trace emitters. A hook that wants a total order takes a global sequence
+// number inside the call.
+
+// VerifEvent is what an installed hook receives.
+type VerifEvent struct {
+	Point string // hook point
+	Id    string // object id ("" for cache-wide points)
+	Entry uint64 // serial number of the *entry the point acts on (0 = none)
+	State int    // entry state, only valid when HasState (read under e.mx)
+	// HasState tells that State was read under the entry lock.
+	HasState bool
+}
+
+// Entry states as reported in VerifEvent.State.
+const (
+	VerifStateLoading = int(entryStateLoading)
+	VerifStateActive  = int(entryStateActive)
+	VerifStateClosing = int(entryStateClosing)
+	VerifStateClosed  = int(entryStateClosed)
+)
+
+var verifHook atomic.Pointer[func(VerifEvent)]
+
+// SetVerifHook installs (or with nil removes) the process-wide hook.
+func SetVerifHook(f func(VerifEvent)) {
+	if f == nil {
+		verifHook.Store(nil)
+		return
+	}
+	verifHook.Store(&f)
+}
+
+var (
+	verifSerials   sync.Map // *entry -> uint64
+	verifSerialCnt atomic.Uint64
+)
+
+func verifSerial(e *entry) uint64 {
+	if v, ok := verifSerials.Load(e); ok {
+		return v.(uint64)
+	}
+	v, _ := verifSerials.LoadOrStore(e, verifSerialCnt.Add(1))
+	return v.(uint64)
+}
+
+// VerifForget drops the entry serial table (entries are kept alive by it).
+func VerifForget() {
+	verifSerials.Range(func(k, _ any) bool { verifSerials.Delete(k); return true })
+}
+
+var verifGate = func(point string, id string) {
+	if h := verifHook.Load(); h != nil {
+		(*h)(VerifEvent{Point: point, Id: id})
+	}
+}
+
+// verifGateE reports a point acting on entry e (identity only, no entry lock needed).
+func verifGateE(point string, e *entry) {
+	if h := verifHook.Load(); h != nil {
+		(*h)(VerifEvent{Point: point, Id: e.id, Entry: verifSerial(e)})
+	}
+}
+
+// verifGateS is verifGateE plus the entry state; call it only while e.mx is held.
+func verifGateS(point string, e *entry) {
+	if h := verifHook.Load(); h != nil {
+		(*h)(VerifEvent{Point: point, Id: e.id, Entry: verifSerial(e), State: int(e.state), HasState: true})
+	}
+}
+
+func verifPick(cond bool, yes, no string) string {
+	if cond {
+		return yes
+	}
+	return no
+}
